@@ -10,7 +10,7 @@ let ns_pool = [| "0"; "1"; "999"; "1000000"; "500000000"; "999999999"; "10000000
                  "18446744073709551615999999999" |]
 let stab_pool = [| "0"; "100000000"; "200000000"; "30000000000"; "18446744073709551615999999999" |]
 
-type act = AWait | AConn of int option  (* age in ms *)
+type act = AWait | AConn of int option  (* age in ms *) | ASleep of int  (* real milliseconds *)
 
 let gen_case (r : rng) =
   let jit = if chance r 70 then 0 else 1 in
@@ -25,10 +25,16 @@ let gen_case (r : rng) =
       let cands = L.filter (fun a -> a >= 0 && a <= 400 && abs (a - stab_ms) >= 60)
                     [0; 20; stab_ms - 60; stab_ms + 60; stab_ms + 150; 300] in
       match cands with [] -> AConn None | _ -> AConn (Some (pick r cands))) in
+  (* a short (unstable) connection, then real time passes beyond the stability period, then an attempt that
+     reaches the transport but never gets a CONNACK: the old success time must have been forgotten *)
+  let acts = if stab_ms >= 100 && stab_ms <= 200 && chance r 12 then
+      acts @ [ AConn (Some 20); AWait; ASleep (stab_ms + 80); AConn None; AWait; AWait ]
+    else acts in
   (jit, base, mx, stab, acts)
 
 let act_to_string = function
   | AWait -> "wait" | AConn None -> "conn(no-connack)" | AConn (Some a) -> Printf.sprintf "conn(stable-for=%dms)" a
+  | ASleep ms -> Printf.sprintf "sleep(%dms)" ms
 
 let run_case (h : harness) (jit, base, mx, stab, acts) (dist : (string, int) Hashtbl.t) =
   let cfg = { c_jit = (if jit = 0 then JNone else JUniform); c_base = n_of_string base; c_max = n_of_string mx; c_stab = n_of_string stab } in
@@ -74,6 +80,9 @@ let run_case (h : harness) (jit, base, mx, stab, acts) (dist : (string, int) Has
                if not ok then failure := Some ("property", Printf.sprintf "%s :: jittered wait #%d impl=%s outside [0,%s)" desc !events v (string_of_n bound))
              | _ -> failure := Some ("property", Printf.sprintf "%s :: wait #%d impl=%s (bound %s)" desc !events reply (string_of_n bound))
            end
+         | ASleep ms ->
+           bump dist "sleep";
+           ignore (ask h (Printf.sprintf "BSLEEP %d" ms))
          | AConn age ->
            bump dist (match age with None -> "conn-no-success" | Some _ -> "conn-success");
            let reply = ask h (match age with None -> "BCONN -" | Some a -> Printf.sprintf "BCONN %d000000" a) in
@@ -101,6 +110,7 @@ let main (seed : int) (count : int) (harness_path : string) (corpus : string lis
         | l -> (match split_ws l with
             | [j; b; m; st; acts] when j <> "#" ->
               let acts = L.map (fun a -> if a = "w" then AWait else if a = "c-" then AConn None
+                                    else if a.[0] = 's' then ASleep (int_of_string (String.sub a 1 (String.length a - 1)))
                                     else AConn (Some (int_of_string (String.sub a 1 (String.length a - 1)))))
                   (String.split_on_char ',' acts) in
               go ((int_of_string j, b, m, st, acts) :: acc)
